@@ -31,6 +31,7 @@ PROPS = "Props/C35.v"
 REQ = ["compute_ray", "ray_geom", "_ray_eliminate", "_ray_quad", "ray_plane", "ray_sphere", "_ray_geom_mesh", "_ray_map"]
 W, H = 8, 6
 OBJ_GEOM = 5
+OBJ_FLEX = 9
 
 
 # ---------------------------------------------------------------- T-validation of compute_ray
@@ -244,6 +245,9 @@ def compare_camera(m, mm, dd, rc, cam, groups, cull, rng, ds, nworld=2, w=W, h=H
           ndisc += 1  # the nearest hit is a back face: the renderer culls it and sees what is behind (not given by rays())
           continue
         sg = tuple(int(v) for v in seg[wd, py, px])
+        if sg[1] == OBJ_FLEX:
+          ndisc += 1  # a flex primitive is in front: rays() does not cast against flexes
+          continue
         if sg == exp_seg and abs(float(dep[wd, py, px]) - exp_depth) <= 1e-3 * (1 + abs(exp_depth)):
           continue
         # near a silhouette / two geoms at almost the same depth: some tiny perturbation of the ray makes
@@ -283,6 +287,100 @@ def oracle(res, nscenes, types, tag, meshes=("cube", "octa")):
       res.sample({"kind": f"oracle render vs rays ({tag})", "xml": xml[:300], "cameras": ncam, "cull": cull, "groups": list(groups), "hit_pixels": int((rc.seg_data.numpy()[:, :, 0] >= 0).sum())})
   res.count(ncmp)
   res.extra.setdefault("oracle_render_vs_rays", {})[tag] = {"pixels": ncmp, "hit_pixels": nhit, "discarded": ndisc, "disagree": len(allf)}
+  return allf
+
+
+# ---------------------------------------------------------------- refit: leaf layout of the scene BVH
+def refit_layout(m, mm, dd, rc, nworld):
+  """After mjw.refit_bvh: leaf w*(bvh_ngeom+bvh_nflexgeom)+k must hold, for EVERY world w, the box of enabled
+  geom k in world w's pose (group w, box containing that geom's position) and the flex leaves behind them
+  group w.  This is the output of the traced _compute_bvh_bounds / _compute_flex_bvh_bounds refit launches."""
+  n, f = int(rc.bvh_ngeom), int(rc.bvh_nflexgeom)
+  lo, up, grp = rc.lower.numpy(), rc.upper.numpy(), rc.group.numpy()
+  en = rc.enabled_geom_ids.numpy()
+  xpos = dd.geom_xpos.numpy()
+  bad = []
+  if len(grp) != nworld * (n + f):
+    return [dict(kind="size", len=int(len(grp)), expected=nworld * (n + f))]
+  for w in range(nworld):
+    for k in range(n + f):
+      i = w * (n + f) + k
+      if int(grp[i]) != w:
+        bad.append(dict(kind="group", world=w, local=k, leaf=i, group=int(grp[i])))
+      elif k < n:
+        p = xpos[w, en[k]]
+        tol = 1e-4 * (1 + np.abs(p))
+        if not (np.all(lo[i] - tol <= p) and np.all(p <= up[i] + tol)):
+          bad.append(dict(kind="box", world=w, local=k, geom=int(en[k]), leaf=i, lower=lo[i].tolist(), upper=up[i].tolist(), geom_xpos=p.tolist()))
+  return bad
+
+
+def launch_stride_extraction():
+  """S tie: the per-world stride argument of the _compute_bvh_bounds launches in bvh.build_scene_bvh and
+  bvh.refit_scene_bvh, read from the source (ast).  Returns {function: source text of that argument}."""
+  import ast
+  import inspect
+
+  import mujoco_warp._src.bvh as B
+
+  src = inspect.getsource(B)
+  tree = ast.parse(src)
+  params = [a.arg for a in next(n for n in tree.body if isinstance(n, ast.FunctionDef) and n.name == "_compute_bvh_bounds").args.args]
+  pos = params.index("bvh_ngeom")
+  out = {}
+  for fn in tree.body:
+    if isinstance(fn, ast.FunctionDef) and fn.name in ("build_scene_bvh", "refit_scene_bvh"):
+      total = None
+      for node in ast.walk(fn):
+        if isinstance(node, ast.Assign) and len(node.targets) == 1 and isinstance(node.targets[0], ast.Name) and node.targets[0].id == "total_bvh_size":
+          total = ast.unparse(node.value)
+        if isinstance(node, ast.Call) and ast.unparse(node.func) == "wp.launch":
+          kw = {k.arg: k.value for k in node.keywords}
+          if "kernel" in kw and ast.unparse(kw["kernel"]) == "_compute_bvh_bounds":
+            ins = kw["inputs"].elts + (kw["outputs"].elts if "outputs" in kw else [])
+            out[fn.name] = (ast.unparse(ins[pos]), total)
+  return out
+
+
+def oracle_flex_refit(res, nscenes):
+  """scenes WITH a flex, nworld in {2,3}: the context is built at the default pose, the bodies (and flex
+  vertices) are moved differently in every world, mjw.refit_bvh, render; leaf layout of the refitted BVH and
+  depth / segmentation vs rays() per pixel IN EVERY WORLD."""
+  import mujoco_warp as mjw
+
+  rng = np.random.default_rng(vlib.seed() + 3503)
+  allf, ncmp, ndisc, nflexpix, nleaf = [], 0, 0, 0, 0
+  for s in range(nscenes):
+    nworld = 2 + s % 2
+    ncam = 2
+    cams = G.random_cameras(rng, ncam, W, H, ortho=0.2)
+    flex = (f'<flexcomp name="f" type="grid" count="{int(rng.integers(2, 4))} {int(rng.integers(2, 4))} 1" spacing="0.25 0.25 0.25" pos="{G.fmt(rng.normal(0, 0.6, 3))}" '
+            'radius="0.01" dim="2"><edge equality="false"/></flexcomp>')  # fmt: skip
+    xml = G.scene(rng, ngeom=(4, 8), types=G.PRIMS, alpha0=0.0, mats=False, cameras=cams, plane_infinite=0.3, groups=3, nbody=(2, 3))
+    xml = xml.replace("</worldbody>", flex + "</worldbody>")
+    m, ds, mm, dd = build(xml, rng, nworld=nworld)
+    groups = (0, 1, 2)
+    rc = mjw.create_render_context(m, nworld=nworld, cam_res=(W, H), render_rgb=False, render_depth=True, render_seg=True,
+                                   enabled_geom_groups=list(groups), enable_backface_culling=bool(s % 2))  # fmt: skip
+    mjw.refit_bvh(mm, dd, rc)
+    lay = refit_layout(m, mm, dd, rc, nworld)
+    nleaf += nworld * (int(rc.bvh_ngeom) + int(rc.bvh_nflexgeom))
+    for b in lay[:2]:
+      allf.append(dict(kind="refit-layout", detail=b, xml=xml, qpos=[d.qpos.tolist() for d in ds], nworld=nworld, cull=bool(s % 2), groups=list(groups), camera=0, projection=0, geom_types=[]))
+    mjw.render(mm, dd, rc)
+    for c in range(ncam):
+      n, nd, fails = compare_camera(m, mm, dd, rc, c, groups, bool(s % 2), rng, ds, nworld=nworld)
+      ncmp += n
+      ndisc += nd
+      for f in fails:
+        f.update(xml=xml, qpos=[d.qpos.tolist() for d in ds], nworld=nworld, cull=bool(s % 2), groups=list(groups), flex=True)
+      allf += fails
+    nflexpix += int((rc.seg_data.numpy()[:, :, 1] == OBJ_FLEX).sum())
+    res.nontrivial(("flex", xml[:200]))
+    if s == 0:
+      res.sample({"kind": "oracle render vs rays after refit_bvh, scene with a flex", "xml": xml[:300], "nworld": nworld, "bvh_ngeom": int(rc.bvh_ngeom), "bvh_nflexgeom": int(rc.bvh_nflexgeom)})
+  res.count(ncmp + nleaf)
+  res.extra.setdefault("oracle_render_vs_rays", {})["flex-refit"] = {"pixels": ncmp, "flex_pixels_skipped": nflexpix, "discarded": ndisc, "leaves_checked": nleaf, "disagree": len(allf)}
   return allf
 
 
@@ -354,6 +452,10 @@ def probes(res):
 
 # ---------------------------------------------------------------- run
 def classify(f):
+  if f["kind"] == "refit-layout":
+    return "C35:refit:scene-bvh-leaf-layout"
+  if f.get("flex") and f["kind"] == "pixel" and f.get("world", 0) >= 1:
+    return "C35:oracle:render-vs-rays-after-refit:flex-scene-world>=1"
   if f["kind"] != "pixel":
     return f"C35:oracle:{f['kind']}"
   if f["projection"] == 1:
@@ -395,6 +497,14 @@ def run(res):
   seen = set()
   fails = oracle(res, 10 if quick else 140, G.PRIMS, "primitives")
   fails += oracle(res, 6 if quick else 80, G.PRIMS + ("mesh",), "with-mesh", meshes=("cube", "octa", "pyr"))
+  fails += oracle_flex_refit(res, 6 if quick else 60)
+  ext = launch_stride_extraction()
+  okx = len(ext) == 2 and all(a == "total_bvh_size" and t is not None and t.replace(" ", "") == "rc.bvh_ngeom+rc.bvh_nflexgeom" for a, t in ext.values())
+  res.obligation("launch extraction: build_scene_bvh and refit_scene_bvh pass total_bvh_size = rc.bvh_ngeom + rc.bvh_nflexgeom as _compute_bvh_bounds' per-world stride",
+                 okx, json.dumps(ext))  # fmt: skip
+  res.extra["stride_extraction"] = {k: list(v) for k, v in ext.items()}
+  if not okx:
+    tbad.append({"stride_extraction": ext})
   lap("oracle")
   for f in fails:
     key = classify(f)
